@@ -1049,6 +1049,7 @@ func (e *c05Env) dragSession(v int) (map[string]any, error) {
 	if err := waitOther(2, "upload command"); err != nil {
 		return nil, err
 	}
+	cmdAt := time.Now()
 	cmd := "trz"
 	if p := e.f.currentUploadCommand.Load(); p != nil {
 		cmd = *p
@@ -1073,8 +1074,10 @@ func (e *c05Env) dragSession(v int) (map[string]any, error) {
 		}
 		time.Sleep(time.Millisecond)
 	}
-	if v == 0 {
-		// uploadDragFiles' own 3 s sleep is still running; nothing is left for it to do
+	// uploadDragFiles sleeps 3 s after the command and then resets the drag state once more: let it
+	// finish, so that it cannot cancel a later drop of the same scenario
+	if d := 3300*time.Millisecond - time.Since(cmdAt); d > 0 {
+		time.Sleep(d)
 	}
 	e.emitMode(true, fmt.Sprintf("drag%d", v))
 	return obs, nil
